@@ -511,3 +511,17 @@ class TriggerHandler:
         # (only what is ours is replaced: another agent started after us may have its function there by now)
         if self.__thread_hook() == self.trace_call:
             threading.settrace(self.__put_back(self.__old_thread_trace, for_new_threads=True))
+        self.__release_running_calls()
+
+    def __release_running_calls(self):
+        """Take our function off the calls in progress (see __trace_running_calls), unless we wait for their end."""
+        try:
+            waited_for = [context.frame for ref in list(self.__pending_of_threads) for context in list(ref() or ())]
+            # noinspection PyUnresolvedReferences,PyProtectedMember
+            for frame in sys._current_frames().values():
+                while frame is not None:
+                    if frame.f_trace == self.trace_call and not any(frame is waited for waited in waited_for):
+                        frame.f_trace = None
+                    frame = frame.f_back
+        except BaseException:
+            logging.exception("Cannot release the calls in progress")
